@@ -80,7 +80,9 @@ template <sz R, sz C, class KX, class KY> void strided_matrix_pair(rmat<R, C> co
     C14_EQ(static_cast<long>(fm::determinant(X)), rdet(a), sg + ":determinant", "determinant(X)");
     C14_EQ(rd(fm::adjugate(X)), radj(a), sg + ":adjugate", "adjugate(X)");
     long const det = rdet(a);
-    if (det == 1 || det == -1)
+    // inverse = (1/det)*adjugate: only where fcppt's determinant is the right unit (otherwise 1/det may be a division by zero
+    // that is merely a consequence of the determinant error reported above)
+    if ((det == 1 || det == -1) && static_cast<long>(fm::determinant(X)) == det)
       C14_EQ(rd(fm::inverse(X)), rscal(det, radj(a)), sg + ":inverse", "inverse(X)");
     C14_EQ(rd(fm::identity<mobj<R, C, KX>>() * X), a, sg + ":identity", "identity*X");
   }
